@@ -18,13 +18,14 @@ func init() {
 const authPath = "github.com/grpc-ecosystem/go-grpc-middleware/v2/interceptors/auth"
 
 func checkC17(w *World, r *Report) {
-	r.Decides = "C17 is decided in its structural part only: (a) the API server's option list installs the auth interceptor for unary and for stream calls; (b) every value registered for the Maintenance and Tables services implements the middleware's ServiceAuthFuncOverride and its override returns what the server's own auth function returns; (c) the auth function at each registration is built from the token of the service's own configuration key; (d) with a non-empty token a nil error is unreachable unless the bearer token was extracted and compared equal as a whole string, and the rejecting return is Unauthenticated; (e) the TLS server configuration requires and verifies client certificates whenever a trusted CA or client-cert-auth is configured, takes ClientCAs from the trusted CA file, installs a peer verification that inspects the verified chains, fails when there is none and compares the common name exactly (or verifies the hostname), never skips verification, and both server constructions pass CA/CN/hostname from their own configuration keys."
+	r.Decides = "C17 is decided in its structural part only: (a) the API server's option list installs the auth interceptor for unary and for stream calls; (b) every value registered for the Maintenance and Tables services implements the middleware's ServiceAuthFuncOverride and its override returns what the server's own auth function returns; (c) the auth function at each registration is built from the token of the service's own configuration key; (d) with a non-empty token a nil error is unreachable unless the bearer token was extracted and compared equal as a whole string, and the rejecting return is Unauthenticated; (e) the TLS server configuration requires and verifies client certificates whenever a trusted CA or client-cert-auth is configured, takes ClientCAs from the trusted CA file, installs a peer verification that inspects the verified chains, fails when there is none and compares the common name exactly (or verifies the hostname), never skips verification, and both server constructions pass CA/CN/hostname from their own configuration keys; (g) the address resolver reports secure=true exactly for the https and unixs schemes, and the server constructions build their TLS configuration on that edge."
 	r.NotDecided = []string{"crypto/tls and gRPC behaviour", "'has no effect' beyond 'the handler is not reachable past a failing interceptor' (middleware behaviour; audited in the thorough tier)"}
 	r.Assume = []string{"go-grpc-middleware: an interceptor calls the service's AuthFuncOverride when the service implements ServiceAuthFuncOverride and does not invoke the handler when it returns an error"}
 	c17Interceptors(w, r)
 	c17Overrides(w, r)
 	c17Compare(w, r)
 	c17TLS(w, r)
+	c17Schemes(w, r)
 	if w.Tier == "thorough" {
 		c17MiddlewareAudit(w, r)
 	}
@@ -402,7 +403,21 @@ func c17TLS(w *World, r *Report) {
 		case "ClientCAs":
 			e := Expr(st.Val)
 			ob.Site(in.Pos(), "ClientCAs = "+e)
-			if !strings.Contains(e, "NewCertPool(") || !strings.Contains(e, "cafiles(") {
+			// the pool of the CA file list: the list helper's result, or a list that is written
+			// out and holds the trusted CA file
+			okSrc := strings.Contains(e, "NewCertPool(") && strings.Contains(e, "cafiles(")
+			if !okSrc && strings.Contains(e, "NewCertPool(") {
+				if ex, ok := st.Val.(*ssa.Extract); ok {
+					if call, ok := ex.Tuple.(*ssa.Call); ok && len(call.Call.Args) == 1 {
+						for _, v := range sliceLiteralValues(call.Call.Args[0]) {
+							if strings.HasSuffix(Expr(v), ".TrustedCAFile") {
+								okSrc = true
+							}
+						}
+					}
+				}
+			}
+			if !okSrc {
 				ob.Violate("clientcas-source", in.Pos(), "ClientCAs is `"+e+"`, not the pool of the configured CA files")
 			}
 		}
@@ -435,7 +450,15 @@ func c17TLS(w *World, r *Report) {
 				}
 				ob.Site(blockPos(b.Succs[k]), "edge "+l.String())
 				isStrong := func(x ssa.Instruction) bool { return containsInstr(strong, x) }
-				if p := (&Walk{Barrier: isStrong, Target: isSuccessReturn}).Find(Loc{b.Succs[k], 0}); p != nil {
+				// the requirement may also have been set on every way to this edge already
+				succ := b.Succs[k]
+				bb, kk := b, k
+				before := (&Walk{Barrier: isStrong, Target: func(x ssa.Instruction) bool { return x == succ.Instrs[0] },
+					EdgeOK: func(pb *ssa.BasicBlock, pk int) bool { return pb.Succs[pk] != succ || (pb == bb && pk == kk) }}).Find(entry(sc)) == nil
+				if before {
+					continue
+				}
+				if p := (&Walk{Barrier: isStrong, Target: isSuccessReturn, SeedB: b, SeedK: k}).Find(Loc{b.Succs[k], 0}); p != nil {
 					ob.Violate("clientauth-not-required", blockPos(b.Succs[k]), "with `"+l.String()+"` ServerConfig can succeed without requiring a verified client certificate", w.PathString(p)...)
 				}
 			}
@@ -577,6 +600,37 @@ func c17TLS(w *World, r *Report) {
 							}
 							nEdges++
 							switch {
+							case guardIf != nil && guardVar != nil && g == bc && singleNonClosureStore(bc, guardVar) != nil:
+								// the tested variable is assigned once, from a value merged from the
+								// configuration branches (a helper's result after inlining): on every path
+								// from this edge to the test that value is one of the per-certificate checks
+								v := singleNonClosureStore(bc, guardVar).Val
+								for _, path := range enumPathsTo(b.Succs[k], guardIf.Block(), 4000) {
+									if !pathFeasible(path) {
+										continue
+									}
+									rv := resolveAlong(v, path, len(path)-1)
+									for d := 0; d < 4; d++ {
+										// looked through single-assignment locals
+										u, ok := rv.(*ssa.UnOp)
+										if !ok {
+											break
+										}
+										al, ok := u.X.(*ssa.Alloc)
+										if !ok {
+											break
+										}
+										sts := storesTo(bc, al)
+										if len(sts) != 1 {
+											break
+										}
+										rv = resolveAlong(sts[0].Val, path, len(path)-1)
+									}
+									if !isPerCert(rv) {
+										ob.Violate("peer-verification-skipped/"+fld, blockPos(b.Succs[k]), "with "+fld+" configured the value tested before installing the peer verification can be `"+Expr(rv)+"`, not a certificate check")
+										break
+									}
+								}
 							case guardIf != nil && guardVar != nil && g == bc:
 								isAssign := func(x ssa.Instruction) bool {
 									st, ok := x.(*ssa.Store)
@@ -603,6 +657,9 @@ func c17TLS(w *World, r *Report) {
 									}
 								}
 								for _, path := range enumPaths(b.Succs[k], 4000) {
+									if !pathFeasible(path) {
+										continue
+									}
 									last := path[len(path)-1]
 									ret, ok := last.Instrs[len(last.Instrs)-1].(*ssa.Return)
 									if !ok || isErrorReturn(ret) || idx >= len(ret.Results) {
@@ -822,4 +879,204 @@ func c17MiddlewareAudit(w *World, r *Report) {
 		}
 	}
 	ob.NeedFloor(2)
+}
+
+// singleNonClosureStore: the variable has exactly one store and it is not a closure literal.
+func singleNonClosureStore(fn *ssa.Function, al *ssa.Alloc) *ssa.Store {
+	sts := storesTo(fn, al)
+	if len(sts) != 1 {
+		return nil
+	}
+	if _, isCl := sts[0].Val.(*ssa.MakeClosure); isCl {
+		return nil
+	}
+	return sts[0]
+}
+
+// sliceLiteralValues: the elements of a slice literal `[]T{a, b}` (a slice of a fresh array with
+// element stores), or what was appended to a fresh slice.
+func sliceLiteralValues(v ssa.Value) []ssa.Value {
+	var out []ssa.Value
+	if sl, ok := v.(*ssa.Slice); ok {
+		if al, ok := sl.X.(*ssa.Alloc); ok && al.Referrers() != nil {
+			for _, ref := range *al.Referrers() {
+				if ia, ok := ref.(*ssa.IndexAddr); ok && ia.Referrers() != nil {
+					for _, r2 := range *ia.Referrers() {
+						if st, ok := r2.(*ssa.Store); ok && st.Addr == ssa.Value(ia) {
+							out = append(out, st.Val)
+						}
+					}
+				}
+			}
+		}
+	}
+	if c, ok := v.(*ssa.Call); ok && CalleeName(&c.Call) == "builtin.append" {
+		out = append(out, appendedValues(&c.Call)...)
+	}
+	if phi, ok := v.(*ssa.Phi); ok {
+		for _, e := range phi.Edges {
+			out = append(out, sliceLiteralValues(e)...)
+		}
+	}
+	return out
+}
+
+// c17Schemes: C17.g — which endpoints get TLS at all.
+func c17Schemes(w *World, r *Report) {
+	ob := r.Ob("C17.g", "g-secure-schemes", "cmd.resolveURL, evaluated on every path for each of the four schemes: the `secure` result is true for https and unixs and false for http and unix (the function is loop free and branches only on comparisons of the URL scheme with constants and on the parse error); createAPIServer and createReplicationServer build their TLS configuration on the secure==true edge", "an endpoint whose scheme promises TLS but is served in plaintext accepts every caller whatever certificate options are configured")
+	fn := w.Func("cmd", "resolveURL")
+	if fn == nil {
+		ob.Undecided("anchor", "cmd.resolveURL not found")
+		return
+	}
+	si := -1
+	for i := 0; i < fn.Signature.Results().Len(); i++ {
+		if b, ok := fn.Signature.Results().At(i).Type().Underlying().(*types.Basic); ok && b.Kind() == types.Bool {
+			si = i
+		}
+	}
+	if si < 0 {
+		ob.Undecided("shape", "resolveURL has no boolean result")
+		return
+	}
+	for _, b := range fn.Blocks {
+		if inCycle(b) {
+			ob.Undecided("shape", "resolveURL has a loop")
+			return
+		}
+	}
+	var eval func(v ssa.Value, path []*ssa.BasicBlock, pos int, scheme string, d int) (bool, bool)
+	eval = func(v ssa.Value, path []*ssa.BasicBlock, pos int, scheme string, d int) (bool, bool) {
+		if d > 10 {
+			return false, false
+		}
+		v = resolveAlong(v, path, pos)
+		switch x := v.(type) {
+		case *ssa.Const:
+			if x.Value != nil && x.Value.Kind() == constant.Bool {
+				return constant.BoolVal(x.Value), true
+			}
+		case *ssa.UnOp:
+			if x.Op == token.NOT {
+				b, ok := eval(x.X, path, pos, scheme, d+1)
+				return !b, ok
+			}
+			if al, ok := x.X.(*ssa.Alloc); ok {
+				// a named result / local: the last store on the path
+				for j := pos; j >= 0; j-- {
+					for k := len(path[j].Instrs) - 1; k >= 0; k-- {
+						if st, ok := path[j].Instrs[k].(*ssa.Store); ok && st.Addr == ssa.Value(al) {
+							return eval(st.Val, path, j, scheme, d+1)
+						}
+					}
+				}
+			}
+		case *ssa.BinOp:
+			if x.Op == token.EQL || x.Op == token.NEQ {
+				var k *ssa.Const
+				var other ssa.Value
+				if c, ok := x.X.(*ssa.Const); ok {
+					k, other = c, x.Y
+				} else if c, ok := x.Y.(*ssa.Const); ok {
+					k, other = c, x.X
+				}
+				if k != nil && k.Value != nil && k.Value.Kind() == constant.String && strings.HasSuffix(Expr(other), ".Scheme") {
+					eq := constant.StringVal(k.Value) == scheme
+					return eq == (x.Op == token.EQL), true
+				}
+			}
+		}
+		return false, false
+	}
+	for _, sc := range []struct {
+		scheme string
+		want   bool
+	}{{"https", true}, {"unixs", true}, {"http", false}, {"unix", false}} {
+		n := 0
+		for _, path := range enumPaths(fn.Blocks[0], 4000) {
+			last := path[len(path)-1]
+			ret, ok := last.Instrs[len(last.Instrs)-1].(*ssa.Return)
+			if !ok {
+				continue
+			}
+			// consistent with the scheme?
+			feasible := true
+			for i := 0; i+1 < len(path) && feasible; i++ {
+				iff, ok := path[i].Instrs[len(path[i].Instrs)-1].(*ssa.If)
+				if !ok {
+					continue
+				}
+				if b, known := eval(iff.Cond, path, i, sc.scheme, 0); known {
+					taken := path[i].Succs[0] == path[i+1]
+					if b != taken {
+						feasible = false
+					}
+				}
+			}
+			if !feasible {
+				continue
+			}
+			n++
+			got, known := eval(retVal(ret, si), path, len(path)-1, sc.scheme, 0)
+			if !known {
+				ob.Undecided("shape/"+sc.scheme, "the secure result `"+Expr(retVal(ret, si))+"` of resolveURL is not a function of the scheme the rule can evaluate")
+				break
+			}
+			if got != sc.want {
+				ob.Violate("scheme/"+sc.scheme, ret.Pos(), "for a "+sc.scheme+":// address resolveURL reports secure="+map[bool]string{true: "true", false: "false"}[got]+": "+map[bool]string{true: "the endpoint is served in plaintext although its scheme promises TLS and certificate options are configured", false: "a plaintext scheme is treated as TLS"}[sc.want])
+				break
+			}
+		}
+		ob.SiteS("scheme " + sc.scheme + ": " + itoa(n) + " path(s), secure=" + map[bool]string{true: "true", false: "false"}[sc.want])
+		if n == 0 {
+			ob.Undecided("shape/"+sc.scheme, "no path through resolveURL for scheme "+sc.scheme)
+		}
+	}
+	// the constructions use the flag
+	for _, name := range []string{"createAPIServer", "createReplicationServer"} {
+		f := w.Func("cmd", name)
+		if f == nil {
+			continue
+		}
+		var secure ssa.Value
+		eachInstr(f, func(in ssa.Instruction) {
+			if ex, ok := in.(*ssa.Extract); ok && ex.Index == si {
+				if call, ok := ex.Tuple.(*ssa.Call); ok && StaticCallee(&call.Call) == fn {
+					secure = ex
+				}
+			}
+		})
+		if secure == nil {
+			ob.Violate("secure-flag-unused@"+name, f.Pos(), name+" does not use resolveURL's secure result")
+			continue
+		}
+		ctx := &ExprCtx{Alias: map[ssa.Value]string{secure: "secure"}}
+		isTLS := func(in ssa.Instruction) bool {
+			c := plainCall(in)
+			return c != nil && strings.HasSuffix(CalleeName(c), "TLSInfo).ServerConfig")
+		}
+		nTLS := 0
+		eachInstr(f, func(in ssa.Instruction) {
+			if isTLS(in) {
+				nTLS++
+			}
+		})
+		ob.Site(f.Pos(), name+": TLS configuration behind the secure flag")
+		if nTLS == 0 {
+			continue // reported by C17.e
+		}
+		// every success return on the secure edge crosses the TLS configuration
+		for _, b := range f.Blocks {
+			for k := range b.Succs {
+				for _, l := range ctx.EdgeLits(b, k) {
+					if l.Kind == "bool" && !l.Neg && l.A == "secure" {
+						if p := (&Walk{Barrier: isTLS, Target: isSuccessReturn}).Find(Loc{b.Succs[k], 0}); p != nil {
+							ob.Violate("secure-without-tls@"+name, blockPos(b.Succs[k]), name+" can finish on the secure edge without building the TLS configuration", w.PathString(p)...)
+						}
+					}
+				}
+			}
+		}
+	}
+	ob.NeedFloor(4)
 }
